@@ -63,6 +63,9 @@ Definition dec_hop (l : list Z) : hop * list Z :=
   | 11 :: t => let '(s, r) := dec_spec t in (HReserveRsv s (hdZ r), tl r)
   | 12 :: t => let '(s, r) := dec_spec t in (HUnreserveRsv s (hdZ r), tl (tl r))
   | 13 :: pu :: t => let '(req, r) := dec_res t in (HSchedule pu req (hdZ r) (hdZ (tl r)), tl (tl r))
+  | 14 :: t => let '(s, r) := dec_spec t in (HInfAdd s (hdZ r), tl r)
+  | 15 :: t => let '(o, r) := dec_spec t in let '(s, r') := dec_spec r in (HInfUpdate o s (hdZ r'), tl r')
+  | 16 :: t => let '(s, r) := dec_spec t in (HInfDelete s (hdZ r) (zb (hdZ (tl r))), tl (tl r))
   | _ => (HRsvRemove 0 0, [])
   end.
 
